@@ -2,12 +2,12 @@ SPECIFICATION Spec
 CONSTANTS
   MaxLen = 5
   StepMode = FALSE
-  DeclSet = {"id", "strna", "urlq", "list"}
-  CpropSet = {"nl"}
-  CmtSet = {"multi", "na"}
+  DeclSet = {"id", "pna"}
+  CpropSet = {}
+  CmtSet = {}
   RuleSet = {"asc", "na"}
-  AtAttr = {"-"}
-  Extra = {}
+  AtAttr = {"-", "na", "name"}
+  Extra = {"sup", "kf", "imp"}
 INVARIANT DesignAccepted
 INVARIANT Sensitive
 INVARIANT EmitVec
